@@ -48,8 +48,10 @@ CONSTANTS
                  \*                       that moment (keyed hub members); a subscription without keys survives the flip
                  \*  "removal-unlocked":   keyedWriteRemoval deletes the key state under c.mu but writes the removal
                  \*                       publication after releasing it
-                 \*  "no-epoch-check":     a broadcast computed under one epoch is delivered to a subscription of
-                 \*                       another epoch (the per-connection key state carries no epoch)
+                 \*  "no-epoch-check":     epoch races: (a) a broadcast computed under one epoch is delivered to a
+                 \*                       subscription of another epoch (the per-connection key state carries no
+                 \*                       epoch), (b) the items of a response / publish are applied after a concurrent
+                 \*                       flip changed the epoch they were checked against
 
 None == "none"
 Threads == {"w", "p"}
@@ -238,17 +240,24 @@ PubStart(k) ==
 
 ---------------------------------------------------------------------------
 (* flipEpochAndCollectClients, then Client.Unsubscribe for each collected client *)
-Flip(t) ==
+\* late = the backend computed its answer only now (what it holds at the return of the call), otherwise the answer
+\* is what it held when the call started (a publish may have overtaken it)
+Flip(t, late) ==
   /\ th[t].pc = "called"
-  /\ IF Versioned /\ th[t].ep # sep
-       THEN /\ sep' = th[t].ep
+  /\ late => t = "w"
+  /\ LET ep  == IF late THEN bep ELSE th[t].ep
+         rsp == IF late THEN [x \in th[t].keys |-> bk[x]] ELSE th[t].resp
+     IN
+     IF Versioned /\ ep # sep
+       THEN /\ sep' = ep
             /\ entry' = [k \in Keys |-> IF entry[k].ex THEN [NoEntry EXCEPT !.ex = TRUE] ELSE entry[k]]
-            /\ th' = [th EXCEPT ![t].pc = "unsub",
+            /\ th' = [th EXCEPT ![t].pc = "unsub", ![t].ep = ep, ![t].resp = rsp,
                                 ![t].unsubs = IF "flip-trackers-only" \in AsCoded THEN UNION {hub[k] : k \in Keys}
                                               ELSE {c \in Conns : sub[c]}]
-       ELSE /\ th' = [th EXCEPT ![t].pc = "apply"] /\ UNCHANGED <<sep, entry>>
+       ELSE /\ th' = [th EXCEPT ![t].pc = "apply", ![t].ep = ep, ![t].resp = rsp] /\ UNCHANGED <<sep, entry>>
   /\ UNCHANGED <<bvars, pend, hub, vctr, notifq, cvars, mvars, rv, ops>>
-  /\ Silent /\ step' = [act |-> "Flip", t |-> t, flipped |-> (Versioned /\ th[t].ep # sep)]
+  /\ Silent /\ step' = [act |-> "Flip", t |-> t, late |-> late,
+                        flipped |-> (Versioned /\ (IF late THEN bep ELSE th[t].ep) # sep)]
 
 FlipUnsub(t, c) ==
   /\ th[t].pc = "unsub" /\ c \in th[t].unsubs
@@ -296,9 +305,16 @@ ApplyItems(ksq, resp, en, vc, acc) ==
 RECURSIVE KeySeq(_)
 KeySeq(S) == IF S = {} THEN <<>> ELSE LET x == CHOOSE y \in S : \A z \in S : KeyIdx(y) <= KeyIdx(z) IN <<x>> \o KeySeq(S \ {x})
 
+\* reference: the epoch check and the application of the items are one critical section - a response (or publish)
+\* whose epoch is no longer the channel's when its items are applied is discarded.  As coded the lock is released
+\* in between and a concurrent flip lets old-epoch data in under the new epoch.
+StaleEpoch(t) == Versioned /\ th[t].ep # sep /\ "no-epoch-check" \notin AsCoded
+
 WApply ==
   /\ th["w"].pc = "apply"
   /\ LET a == ApplyItems(KeySeq(th["w"].keys), th["w"].resp, entry, vctr, <<>>) IN
+       IF StaleEpoch("w") THEN th' = [th EXCEPT !["w"] = Idle] /\ UNCHANGED <<entry, vctr>>
+       ELSE
        /\ entry' = a.en /\ vctr' = a.vc
        /\ th' = [th EXCEPT !["w"].pc = "bcast", !["w"].q = [i \in 1..Len(a.q) |-> [a.q[i] EXCEPT !.ep = sep]]]
   /\ UNCHANGED <<bvars, sep, pend, hub, notifq, cvars, mvars, rv, ops>>
@@ -309,7 +325,7 @@ PApply ==
   /\ LET k == th["p"].pk.k
          e == entry[k]
          v == th["p"].pk.ver
-     IN IF ~e.ex \/ v <= e.ver
+     IN IF ~e.ex \/ v <= e.ver \/ StaleEpoch("p")
           THEN /\ th' = [th EXCEPT !["p"] = Idle] /\ UNCHANGED entry
           ELSE /\ entry' = [entry EXCEPT ![k] = [e EXCEPT !.ver = v, !.data = th["p"].pk.data, !.fresh = TRUE]]
                /\ th' = [th EXCEPT !["p"].pc = "bcast",
@@ -412,10 +428,10 @@ RevEnd ==                                       \* removeAllSubscribers + itemIn
 
 ---------------------------------------------------------------------------
 WStep == WCallNotif \/ WCallTimer \/ WApply
-         \/ Flip("w") \/ FlipDone("w") \/ BNext("w") \/ BTargetsDone("w") \/ Enq("w")
+         \/ (\E late \in BOOLEAN : Flip("w", late)) \/ FlipDone("w") \/ BNext("w") \/ BTargetsDone("w") \/ Enq("w")
          \/ \E c \in Conns : FlipUnsub("w", c) \/ Prep("w", c)
 PStep == PApply
-         \/ Flip("p") \/ FlipDone("p") \/ BNext("p") \/ BTargetsDone("p") \/ Enq("p")
+         \/ Flip("p", FALSE) \/ FlipDone("p") \/ BNext("p") \/ BTargetsDone("p") \/ Enq("p")
          \/ \E c \in Conns : FlipUnsub("p", c) \/ Prep("p", c)
 RStep == RevPush \/ RevEnd \/ \E c \in Conns : RevDel(c)
 TStep == \E c \in Conns : Track2(c)
@@ -436,6 +452,8 @@ Next ==
   ELSE IF Replay /\ Running("w") THEN WStep
   ELSE IF Replay /\ Running("p") THEN PStep
   ELSE IF Replay /\ RevRunning THEN RStep
+  \* the real worker calls the backend as soon as it is idle and a notification is queued
+  ELSE IF Replay /\ th["w"].pc = "idle" /\ notifq # <<>> THEN WCallNotif
   ELSE WStep \/ PStep \/ RStep \/ TStep \/ EnvStep
 
 Spec     == Init /\ [][Next]_vars
